@@ -221,6 +221,10 @@ sexp sexp_extend_env (sexp ctx, sexp env, sexp vars, sexp value) {
   sexp_gc_var2(e, tmp);
   sexp_gc_preserve2(ctx, e, tmp);
   e = sexp_alloc_type(ctx, env, SEXP_ENV);
+  if (sexp_exceptionp(e)) {
+    sexp_gc_release2(ctx);
+    return e;
+  }
   sexp_env_parent(e) = env;
   sexp_env_bindings(e) = SEXP_NULL;
 #if SEXP_USE_STABLE_ABI || SEXP_USE_RENAME_BINDINGS
@@ -386,6 +390,7 @@ sexp sexp_complete_bytecode (sexp ctx) {
 sexp sexp_make_procedure_op (sexp ctx, sexp self, sexp_sint_t n, sexp flags,
                              sexp num_args, sexp bc, sexp vars) {
   sexp proc = sexp_alloc_type(ctx, procedure, SEXP_PROCEDURE);
+  if (sexp_exceptionp(proc)) return proc;
   sexp_procedure_flags(proc) = (char) (sexp_uint_t) flags;
   sexp_procedure_num_args(proc) = sexp_unbox_fixnum(num_args);
   sexp_procedure_code(proc) = bc;
@@ -395,6 +400,7 @@ sexp sexp_make_procedure_op (sexp ctx, sexp self, sexp_sint_t n, sexp flags,
 
 static sexp sexp_make_macro (sexp ctx, sexp p, sexp e) {
   sexp mac = sexp_alloc_type(ctx, macro, SEXP_MACRO);
+  if (sexp_exceptionp(mac)) return mac;
   sexp_macro_env(mac) = e;
   sexp_macro_proc(mac) = p;
   sexp_macro_aux(mac) = SEXP_FALSE;
@@ -407,6 +413,7 @@ sexp sexp_make_synclo_op (sexp ctx, sexp self, sexp_sint_t n, sexp env, sexp fv,
   if (! (sexp_symbolp(expr) || sexp_pairp(expr) || sexp_synclop(expr)))
     return expr;
   res = sexp_alloc_type(ctx, synclo, SEXP_SYNCLO);
+  if (sexp_exceptionp(res)) return res;
   if (SEXP_USE_FLAT_SYNTACTIC_CLOSURES && sexp_synclop(expr)) {
     sexp_synclo_env(res) = sexp_synclo_env(expr);
     sexp_synclo_free_vars(res) = sexp_synclo_free_vars(expr);
@@ -425,6 +432,7 @@ sexp sexp_make_synclo_op (sexp ctx, sexp self, sexp_sint_t n, sexp env, sexp fv,
 
 sexp sexp_make_lambda (sexp ctx, sexp params) {
   sexp res = sexp_alloc_type(ctx, lambda, SEXP_LAMBDA);
+  if (sexp_exceptionp(res)) return res;
   sexp_lambda_name(res) = SEXP_FALSE;
   sexp_lambda_params(res) = params;
   sexp_lambda_fv(res) = SEXP_NULL;
@@ -438,6 +446,7 @@ sexp sexp_make_lambda (sexp ctx, sexp params) {
 
 sexp sexp_make_ref (sexp ctx, sexp name, sexp cell) {
   sexp res = sexp_alloc_type(ctx, ref, SEXP_REF);
+  if (sexp_exceptionp(res)) return res;
   sexp_ref_name(res) = name;
   sexp_ref_cell(res) = cell;
   return res;
@@ -445,6 +454,7 @@ sexp sexp_make_ref (sexp ctx, sexp name, sexp cell) {
 
 static sexp sexp_make_set (sexp ctx, sexp var, sexp value) {
   sexp res = sexp_alloc_type(ctx, set, SEXP_SET);
+  if (sexp_exceptionp(res)) return res;
   sexp_set_var(res) = var;
   sexp_set_value(res) = value;
   return res;
@@ -452,6 +462,7 @@ static sexp sexp_make_set (sexp ctx, sexp var, sexp value) {
 
 static sexp sexp_make_cnd (sexp ctx, sexp test, sexp pass, sexp fail) {
   sexp res = sexp_alloc_type(ctx, cnd, SEXP_CND);
+  if (sexp_exceptionp(res)) return res;
   sexp_cnd_test(res) = test;
   sexp_cnd_pass(res) = pass;
   sexp_cnd_fail(res) = fail;
@@ -460,6 +471,7 @@ static sexp sexp_make_cnd (sexp ctx, sexp test, sexp pass, sexp fail) {
 
 sexp sexp_make_lit (sexp ctx, sexp value) {
   sexp res = sexp_alloc_type(ctx, lit, SEXP_LIT);
+  if (sexp_exceptionp(res)) return res;
   sexp_lit_value(res) = value;
   return res;
 }
@@ -756,12 +768,14 @@ static sexp analyze_seq (sexp ctx, sexp ls, int depth, int defok) {
     res = analyze(ctx, sexp_car(ls), depth, defok);
   else {
     res = sexp_alloc_type(ctx, seq, SEXP_SEQ);
-    sexp_seq_source(res) = sexp_pair_source(ls);
-    tmp = analyze_list(ctx, ls, depth, defok);
-    if (sexp_exceptionp(tmp))
-      res = tmp;
-    else
-      sexp_seq_ls(res) = tmp;
+    if (! sexp_exceptionp(res)) {
+      sexp_seq_source(res) = sexp_pair_source(ls);
+      tmp = analyze_list(ctx, ls, depth, defok);
+      if (sexp_exceptionp(tmp))
+        res = tmp;
+      else
+        sexp_seq_ls(res) = tmp;
+    }
   }
   sexp_gc_release2(ctx);
   return res;
@@ -912,6 +926,7 @@ static sexp analyze_lambda (sexp ctx, sexp x, int depth) {
   if (sexp_pairp(defs)) {
     if (! sexp_seqp(body)) {
       tmp = sexp_alloc_type(ctx2, seq, SEXP_SEQ);
+      if (sexp_exceptionp(tmp)) sexp_return(res, tmp);
       sexp_seq_ls(tmp) = sexp_list1(ctx2, body);
       body = tmp;
     }
@@ -1061,6 +1076,10 @@ static sexp analyze_let_syntax_aux (sexp ctx, sexp x, int recp, int depth) {
     res = sexp_compile_error(ctx, "bad let(rec)-syntax", x);
   } else {
     env = sexp_alloc_type(ctx, env, SEXP_ENV);
+    if (sexp_exceptionp(env)) {
+      sexp_gc_release3(ctx);
+      return env;
+    }
     sexp_env_syntactic_p(env) = 1;
     sexp_env_parent(env) = sexp_context_env(ctx);
     sexp_env_bindings(env) = SEXP_NULL;
@@ -1068,6 +1087,10 @@ static sexp analyze_let_syntax_aux (sexp ctx, sexp x, int recp, int depth) {
     sexp_env_renames(env) = SEXP_NULL;
 #endif
     ctx2 = sexp_make_child_context(ctx, sexp_context_lambda(ctx));
+    if (sexp_exceptionp(ctx2)) {
+      sexp_gc_release3(ctx);
+      return ctx2;
+    }
     sexp_context_env(ctx2) = env;
     tmp = analyze_bind_syntax(sexp_cadr(x), (recp ? ctx2 : ctx), ctx2, 1);
     res = (sexp_exceptionp(tmp) ? tmp : analyze_seq(ctx2, sexp_cddr(x), depth, 1));
@@ -1460,6 +1483,7 @@ static sexp sexp_load_dl (sexp ctx, sexp file, sexp env) {
 #else
 static sexp sexp_make_dl (sexp ctx, sexp file, void* handle) {
   sexp res = sexp_alloc_type(ctx, dl, SEXP_DL);
+  if (sexp_exceptionp(res)) return res;
   sexp_dl_file(res) = file;
   sexp_dl_handle(res) = handle;
   return res;
@@ -2217,6 +2241,7 @@ sexp sexp_make_opcode (sexp ctx, sexp self, sexp name, sexp op_class, sexp code,
     res = sexp_xtype_exception(ctx, self, "make-opcode: bad opcode", code);
   else {
     res = sexp_alloc_type(ctx, opcode, SEXP_OPCODE);
+    if (sexp_exceptionp(res)) return res;
     sexp_opcode_class(res) = (unsigned char)sexp_unbox_fixnum(op_class);
     sexp_opcode_code(res) = (unsigned char)sexp_unbox_fixnum(code);
     sexp_opcode_num_args(res) = (unsigned char)sexp_unbox_fixnum(num_args);
@@ -2245,6 +2270,10 @@ sexp sexp_make_foreign (sexp ctx, const char *name, int num_args,
 #endif
   sexp_gc_preserve1(ctx, res);
   res = sexp_alloc_type(ctx, opcode, SEXP_OPCODE);
+  if (sexp_exceptionp(res)) {
+    sexp_gc_release1(ctx);
+    return res;
+  }
   sexp_opcode_class(res) = SEXP_OPC_FOREIGN;
 #if SEXP_USE_EXTENDED_FCALL
   if (num_args > 4)
@@ -2317,6 +2346,7 @@ static struct sexp_core_form_struct core_forms[] = {
 
 sexp sexp_make_env_op (sexp ctx, sexp self, sexp_sint_t n) {
   sexp e = sexp_alloc_type(ctx, env, SEXP_ENV);
+  if (sexp_exceptionp(e)) return e;
   sexp_env_lambda(e) = NULL;
   sexp_env_parent(e) = NULL;
   sexp_env_bindings(e) = SEXP_NULL;
